@@ -31,7 +31,7 @@ CmOf(c) == [Configuration |-> IF HasPrj(c) THEN <<"prj", c>> ELSE None,
 Init == /\ comps = <<>> /\ cm = [Configuration |-> None, DeviceSettings |-> None, RequiresBusAddress |-> None, Other |-> <<"keep", 0>>]
         /\ auth = <<>> /\ nfw = 0 /\ steps = 0 /\ last = <<"init", 0>>
 
-IsCfg(x) == x.k = "cfg"
+IsCfg(x) == x.k \in {"cfg", "cfgx"}
 CfgIdx == {j \in 1..Len(comps) : IsCfg(comps[j])}
 \* index the library's lookup finds: first configuration component - unless (switch) an untyped component precedes it
 FoundIdx == IF CfgIdx = {} THEN 0
@@ -42,6 +42,11 @@ Tick(op, c) == steps < MaxSteps /\ steps' = steps + 1 /\ last' = <<op, c>>
 SetCfg(c) == /\ Tick("set", c)
              /\ comps' = Append(IF FoundIdx = 0 THEN comps ELSE Without(comps, FoundIdx), [k |-> "cfg", id |-> c])
              /\ UNCHANGED <<cm, auth, nfw>>
+\* set_config(configuration c, [one caller-supplied extra TLV block]): the component encodes c followed by that block - and only
+\* while it is the most recent update (a later SetCfg(c) without extras encodes c alone)
+SetCfgX(c) == /\ Tick("setx", c)
+              /\ comps' = Append(IF FoundIdx = 0 THEN comps ELSE Without(comps, FoundIdx), [k |-> "cfgx", id |-> c])
+              /\ UNCHANGED <<cm, auth, nfw>>
 DeriveCm(c) == /\ Tick("derivecm", c)
                /\ cm' = [cm EXCEPT !.Configuration = CmOf(c).Configuration, !.DeviceSettings = CmOf(c).DeviceSettings,
                                    !.RequiresBusAddress = CmOf(c).RequiresBusAddress]
@@ -68,20 +73,22 @@ FailedWrite == HasKind("cust") /\ Tick("failedwrite", 0) /\ UNCHANGED <<comps, c
 WriteReadBec2 == (HasKind("cust") \/ HasKind("update")) /\ Tick("writereadbec2", 0) /\ UNCHANGED <<comps, cm, auth, nfw>>
 
 SetCfg1 == SetCfg(1)   SetCfg2 == SetCfg(2)   SetCfg3 == SetCfg(3)   SetCfg4 == SetCfg(4)
+SetCfgX1 == SetCfgX(1)   SetCfgX2 == SetCfgX(2)
 DeriveCm1 == DeriveCm(1)   DeriveCm2 == DeriveCm(2)   DeriveCm3 == DeriveCm(3)   DeriveCm4 == DeriveCm(4)
 DeriveAuthEcc1 == DeriveAuth(1, "ecc")   DeriveAuthEcc2 == DeriveAuth(2, "ecc")   DeriveAuthEcc3 == DeriveAuth(3, "ecc")
 DeriveAuthCust1 == DeriveAuth(1, "cust")  DeriveAuthCust2 == DeriveAuth(2, "cust")
 DeriveAuthEcc4 == DeriveAuth(4, "ecc")   DeriveAuthCust4 == DeriveAuth(4, "cust")
 AppendT == AddFw("fwT", FALSE)   AppendU == AddFw("fwU", FALSE)   InsertT == AddFw("fwT", TRUE)   InsertU == AddFw("fwU", TRUE)
 AppendW == AddFw("fwW", FALSE)   InsertW == AddFw("fwW", TRUE)
-Next == SetCfg1 \/ SetCfg2 \/ SetCfg3 \/ SetCfg4 \/ DeriveCm1 \/ DeriveCm2 \/ DeriveCm3 \/ DeriveCm4 \/ DeriveAuthEcc4 \/ DeriveAuthCust4
+Next == SetCfg1 \/ SetCfg2 \/ SetCfg3 \/ SetCfg4 \/ SetCfgX1 \/ SetCfgX2 \/ DeriveCm1 \/ DeriveCm2 \/ DeriveCm3 \/ DeriveCm4 \/ DeriveAuthEcc4 \/ DeriveAuthCust4
         \/ DeriveAuthEcc1 \/ DeriveAuthEcc2 \/ DeriveAuthEcc3 \/ DeriveAuthCust1 \/ DeriveAuthCust2
         \/ AppendT \/ AppendU \/ InsertT \/ InsertU \/ AppendW \/ InsertW \/ WriteRead \/ FailedWrite \/ WriteReadBec2
 Spec == Init /\ [][Next]_vars
 
 \* ---- properties (C11)
 AtMostOneCfg == Cardinality(CfgIdx) <= 1
-AfterSetCfg == last[1] = "set" => (Cardinality(CfgIdx) = 1 /\ comps[Len(comps)] = [k |-> "cfg", id |-> last[2]])
+AfterSetCfg == /\ last[1] = "set" => (Cardinality(CfgIdx) = 1 /\ comps[Len(comps)] = [k |-> "cfg", id |-> last[2]])
+               /\ last[1] = "setx" => (Cardinality(CfgIdx) = 1 /\ comps[Len(comps)] = [k |-> "cfgx", id |-> last[2]])
 Fw(s) == SelectSeq(s, LAMBDA x : ~IsCfg(x))
 FirmwareUntouched == [][ \/ Fw(comps') = Fw(comps)
                          \/ (nfw' = nfw + 1 /\ (Fw(comps') = Append(Fw(comps), comps'[Len(comps')]) \/ Fw(comps') = <<comps'[1]>> \o Fw(comps))) ]_vars
